@@ -61,6 +61,9 @@ def sorting(rng, tier):
                "extra": _EXTRA, "label": repr(costs)}
 
 
+scenario("artap.operators:Selector.fast_nondominated_sorting#front1", bound="as fast_nondominated_sorting (replay search for the proved clauses)")(sorting)
+
+
 @scenario("artap.operators:Selector.individual", bound="lookups of present / absent ids in populations of size <= 4")
 def lookup(rng, tier):
     s = _selector()
